@@ -1391,6 +1391,9 @@ def body(ctx):
                 j = rng.randrange(n)
                 lo = secs[j - 1] if j > 0 else secs[0] - 3000
                 hi = secs[j + 1] if j + 1 < n else secs[-1] + 3000
+                if lo > hi:
+                    # an earlier edit of this history put a stamp out of order: the neighbours no longer bracket an interval
+                    lo, hi = hi, lo
                 t = rng.randint(lo, hi) if rng.random() < 0.9 else rng.choice([lo - rng.randint(1, 4000), hi + rng.randint(1, 4000)])
                 secs[j] = t
                 ps[j] = t
